@@ -20,4 +20,15 @@ for id in C01 C02 C03 C04 C05 C06 C09 C10 C11 C12 C13 C14 C17 C18 C19 C20 C07 C0
     if [ "$A" != "$B" ] || [ "$A" != "$C" ] || [ -z "$A" ]; then echo "MISMATCH $id seed=$seed: [$A] [$B] [$C]"; FAIL=1; else echo "ok $id seed=$seed $A"; fi
   done
 done
-if [ $FAIL = 0 ]; then echo "determinism self-test passed: $TOTAL run seeds, each executed 3 times in separate processes at 1/16/5 workers"; exit 0; else echo "HARNESS-ERROR: nondeterministic replay"; exit 2; fi
+# second stage: a longer batch per check, so that the rare profiles (readers on a FIFO with its
+# helper thread, multi-MiB records, interrupt storms, two parallel calls at once, long queues ...)
+# are in the sample as well; two processes, 16 and 3 workers
+M="${2:-60000}"
+for id in C01 C02 C03 C04 C05 C06 C09 C10 C11 C12 C13 C14 C17 C18 C19 C20 C07 C08 C15 C16; do
+  case "$id" in C07|C08|C15|C16) BIN="$HERE/sim-par/target/release/sim-par"; K=$((M / 3));; C14|C18) BIN="$HERE/sim-io/target/release/sim-io"; K=$((M / 6));; *) BIN="$HERE/sim-io/target/release/sim-io"; K=$M;; esac
+  A=$("$BIN" "$id" --digest --runs "$K" --workers 16 --seed 3 | grep DIGEST)
+  B=$("$BIN" "$id" --digest --runs "$K" --workers 3 --seed 3 | grep DIGEST)
+  TOTAL=$((TOTAL + K))
+  if [ "$A" != "$B" ] || [ -z "$A" ]; then echo "MISMATCH $id seed=3: [$A] [$B]"; FAIL=1; else echo "ok $id seed=3 $A"; fi
+done
+if [ $FAIL = 0 ]; then echo "determinism self-test passed: $TOTAL run seeds, each executed 2-3 times in separate processes at different worker counts"; exit 0; else echo "HARNESS-ERROR: nondeterministic replay"; exit 2; fi
